@@ -192,57 +192,72 @@ impl VisitMut for OptChainVisitor<'_> {
      *  to a new variable.
      */
     fn visit_mut_expr(&mut self, expr: &mut Expr) {
-        match expr {
-            Expr::OptChain(opt_chain_expr) => {
-                if self.found {
-                    let base = &*opt_chain_expr.base;
-                    let optional = opt_chain_expr.optional;
-                    match base {
-                        OptChainBase::Call(call_expr) => {
-                            let call_opt = self.get_call_from_base_call(call_expr, optional);
-                            if let Some(call) = call_opt {
-                                expr.map_with_mut(|_| Expr::Call(call))
-                            }
+        if let Expr::OptChain(opt_chain_expr) = expr {
+            if self.found {
+                let base = &*opt_chain_expr.base;
+                let optional = opt_chain_expr.optional;
+                match base {
+                    OptChainBase::Call(call_expr) => {
+                        let call_opt = self.get_call_from_base_call(call_expr, optional);
+                        if let Some(call) = call_opt {
+                            expr.map_with_mut(|_| Expr::Call(call))
                         }
-
-                        OptChainBase::Member(member_expr) => {
-                            let call_opt = self.get_member_from_base_member(member_expr, optional);
-                            if let Some(call) = call_opt {
-                                expr.map_with_mut(|_| Expr::Member(call))
-                            }
-                        }
-                    };
-
-                    if optional {
-                        // Do not call to visit_mut_children_with
-                        return;
                     }
-                } else if !opt_chain_expr.optional {
-                    if let OptChainBase::Call(opt_call) = &*opt_chain_expr.base {
-                        if let Expr::OptChain(opt_chain_expr) = *opt_call.clone().callee {
-                            if let OptChainBase::Member(member_expr) = &*opt_chain_expr.base {
-                                if let MemberProp::Ident(method_ident) = &member_expr.prop {
-                                    let prop_name = &method_ident.sym;
 
-                                    if self.csi_methods.get(prop_name).is_some() {
-                                        self.found = true;
+                    OptChainBase::Member(member_expr) => {
+                        let call_opt = self.get_member_from_base_member(member_expr, optional);
+                        if let Some(call) = call_opt {
+                            expr.map_with_mut(|_| Expr::Member(call))
+                        }
+                    }
+                };
 
-                                        expr.visit_mut_with(self);
-                                        return;
-                                    }
+                if optional {
+                    // the rest of the chain has been extracted to a variable
+                    return;
+                }
+            } else if !opt_chain_expr.optional {
+                if let OptChainBase::Call(opt_call) = &*opt_chain_expr.base {
+                    if let Expr::OptChain(opt_chain_expr) = *opt_call.clone().callee {
+                        if let OptChainBase::Member(member_expr) = &*opt_chain_expr.base {
+                            if let MemberProp::Ident(method_ident) = &member_expr.prop {
+                                let prop_name = &method_ident.sym;
+
+                                if self.csi_methods.get(prop_name).is_some() {
+                                    self.found = true;
+
+                                    expr.visit_mut_with(self);
+                                    return;
                                 }
                             }
                         }
                     }
                 }
-
-                expr.visit_mut_children_with(self);
             }
 
-            _ => {
-                expr.visit_mut_children_with(self);
+            // follow the chain itself (callee / object). Call arguments, computed keys and the
+            // head of the chain are not links of this chain: optional chains inside them
+            // short-circuit on their own and are lowered when they are visited later
+            self.visit_mut_chain_link(expr);
+        }
+    }
+}
+
+impl OptChainVisitor<'_> {
+    fn visit_mut_chain_link(&mut self, expr: &mut Expr) {
+        match expr {
+            Expr::OptChain(opt_chain_expr) => match &mut *opt_chain_expr.base {
+                OptChainBase::Call(call_expr) => call_expr.callee.visit_mut_with(self),
+                OptChainBase::Member(member_expr) => member_expr.obj.visit_mut_with(self),
+            },
+            Expr::Call(call_expr) => {
+                if let Callee::Expr(callee) = &mut call_expr.callee {
+                    callee.visit_mut_with(self)
+                }
             }
-        };
+            Expr::Member(member_expr) => member_expr.obj.visit_mut_with(self),
+            _ => {}
+        }
     }
 }
 
